@@ -671,10 +671,19 @@ class Builder:
             "class %s { constructor(%s){ %s } }" % (d.name, ", ".join("p%d" % i for i in range(d.nparams)), js_body(d.body, None))
             for d in defs if d.kind == "class") + " " + js_body(body, None)
         ract = "(modlink R:%s) (eval R:%s %s 0 0 1 (%s))" % (main, main, self.walk.hs(mainfn), " ".join(acts))
+        nracts = 2
+        if self.walk.jobs:
+            # functions called by the module body enqueued promise jobs: the op's own run_jobs runs them
+            j = self.entry_jobs()
+            ract += " " + j.ract
+            nracts = 3
+            if j.outcome == LIMIT:
+                out = LIMIT
         cat = "module-" + {NORMAL: "ok", THROW: "throw", LIMIT: "limit"}[out]
         e = Entry("module " + esc(text), ract, out, cat, defs, None)
         e.module = main
         e.first_probe = first[1]["id"]
+        e.nracts = nracts
         return e
 
     def entry_defclass(self, want):
